@@ -946,3 +946,133 @@ func VerifGetDataIntended() {
 		}
 	}
 }
+
+// VerifGetDataJsonDoubleKey: the JSON / JSON_IETF document for requests at and BELOW an entry
+// of a list with two keys (doublekey[key1=alpha][key2=one]; leaves mandato and cont/value1):
+// the entry of the document carries both keys with the values of the stored entry - also when
+// the request names a leaf or container below the entry, so that the key leaves are not read
+// from the store but synthesised from the path - and exactly the covered leaves.
+func VerifGetDataJsonDoubleKey() {
+	env := vNewEnv()
+	ctx := context.Background()
+	k1, k2 := "alpha", "one"
+	base := []string{"doublekey", k1, k2}
+	entry := vPE("doublekey", "key1", k1, "key2", k2)
+	type dkLeaf struct {
+		name  []string
+		pres  bool
+		val   string
+		isKey bool
+	}
+	leaves := []*dkLeaf{
+		{name: []string{"key1"}, val: k1, isKey: true}, {name: []string{"key2"}, val: k2, isKey: true},
+		{name: []string{"mandato"}}, {name: []string{"cont", "value1"}},
+	}
+	anyPres := false
+	for i, l := range leaves {
+		if l.isKey {
+			continue
+		}
+		if verifrt.Bool("pres.D" + string(rune('0'+i))) {
+			l.pres, anyPres = true, true
+			s := verifrt.String("val.D"+string(rune('0'+i)), 1, "ab")
+			verifrt.Assume(len(s) == 1)
+			l.val = s
+		}
+	}
+	verifrt.Assume(anyPres)
+	leaves[0].pres, leaves[1].pres = true, true // the sync writes the keys as leaves
+	for _, l := range leaves {
+		if l.pres {
+			_ = env.model.WriteValue(ctx, "ds", &sdccache.Opts{Store: sdccache.StoreConfig, Path: [][]string{append(append([]string{}, base...), l.name...)}}, vBytes(vStrTV(l.val)))
+		}
+	}
+	reqs := [][]*sdcpb.PathElem{
+		{vPE("doublekey")},
+		{entry},
+		{entry, vPE("mandato")},
+		{entry, vPE("cont")},
+		{entry, vPE("cont"), vPE("value1")},
+	}
+	ri := verifrt.Choice("req.path", len(reqs))
+	rp := &sdcpb.Path{Elem: reqs[ri]}
+	ietf := verifrt.Choice("req.ietf", 2) == 1
+	enc := sdcpb.Encoding_JSON
+	if ietf {
+		enc = sdcpb.Encoding_JSON_IETF
+	}
+	req := &sdcpb.GetDataRequest{Name: "ds", Datastore: &sdcpb.DataStore{Type: sdcpb.Type_MAIN}, Path: []*sdcpb.Path{rp}, DataType: sdcpb.DataType_CONFIG, Encoding: enc}
+	covered := func(l *dkLeaf) bool {
+		if !l.pres {
+			return false
+		}
+		switch ri {
+		case 2:
+			return len(l.name) == 1 && l.name[0] == "mandato"
+		case 3, 4:
+			return l.name[0] == "cont"
+		}
+		return true
+	}
+	anyCovered := false
+	for _, l := range leaves {
+		if !l.isKey && covered(l) {
+			anyCovered = true
+		}
+	}
+	verifrt.Reach("state-built")
+	doc, err := v14JsonTree(ctx, env.ds, req, [][]string{vToStrings(rp)}, ietf)
+	verifrt.Reach("document-built")
+	verifrt.Assert(err == nil, "C14-valid-request-accepted")
+	if err != nil {
+		return
+	}
+	m, ok := doc.(map[string]any)
+	verifrt.Assert(ok, "C14-json-document-is-object")
+	if !ok {
+		return
+	}
+	var list []any
+	for k, v := range m {
+		if !strings.HasSuffix(k, "doublekey") {
+			verifrt.Assert(false, "C14-json-no-member-outside-request")
+			continue
+		}
+		list, _ = v.([]any)
+	}
+	if !anyCovered && ri >= 2 {
+		verifrt.Assert(len(list) == 0, "C14-json-no-entry-outside-request")
+		return
+	}
+	verifrt.Assert(len(list) == 1, "C14-json-one-entry-for-the-stored-entry")
+	if len(list) != 1 {
+		return
+	}
+	em, ok := list[0].(map[string]any)
+	verifrt.Assert(ok, "C14-json-entry-is-object")
+	if !ok {
+		return
+	}
+	verifrt.Reach("entry-rendered")
+	g1, _ := em["key1"].(string)
+	g2, _ := em["key2"].(string)
+	verifrt.Assert(g1 == k1 && g2 == k2, "C14-json-entry-keys-as-stored")
+	for _, l := range leaves {
+		if l.isKey {
+			continue
+		}
+		var v any
+		var have bool
+		if len(l.name) == 1 {
+			v, have = em[l.name[0]]
+		} else if cm, ok := em[l.name[0]].(map[string]any); ok {
+			v, have = cm[l.name[1]]
+		}
+		if covered(l) {
+			s, _ := v.(string)
+			verifrt.Assert(have && s == l.val, "C14-json-every-leaf-below-request-present")
+		} else {
+			verifrt.Assert(!have, "C14-json-no-member-outside-request")
+		}
+	}
+}
